@@ -1595,7 +1595,7 @@ FROM (
             return _bool_to_str(expr)
 
         if target_type_str == "Integer":
-            if source_lower == "boolean":
+            if source_lower in ("boolean", "integer"):
                 return f"CAST({expr} AS {duckdb_type})"
             return f"CAST(TRUNC(CAST({expr} AS DOUBLE)) AS {duckdb_type})"
 
